@@ -225,6 +225,8 @@ class Machine:
                     obj._flags[s] = False
                     td = self._member_probe(name, label, m, kind, None)
                     vv["%s:%s" % (m, s)] = self._call(td)
+                    if manual is not None:
+                        self._manual_member(name, obj, m, kind, td, vv["%s:%s" % (m, s)], manual)
                     obj._flags.pop(s, None)
         return vv
 
@@ -302,9 +304,11 @@ class Machine:
         f = fs[0][1]
         self.manual_checks += 1
         # invariants first (those selected for calls), as the wrapper does
-        if kind in ("method", "prop") and getattr(cls, "__invariants_on_call__", None):
+        if kind in ("method", "prop") and getattr(cls, "__invariants__", None):
             idx = {id(c): sid for sid, c in self.world.contracts.items()}
-            for inv in cls.__invariants_on_call__:
+            # the documented list is ``__invariants__``; an integrator selects those checked at calls by ``check_on``
+            on_call = [inv for inv in cls.__invariants__ if icontract.InvariantCheckEvent.CALL in getattr(inv, "check_on", icontract.InvariantCheckEvent.CALL)]
+            for inv in on_call:
                 ok = self.ctx.run(self._manual_inv, inv, obj, td)
                 if not ok:
                     manual.append(("%s.%s" % (cname, m), td.get("sites"), ["viol", idx.get(id(inv), "?")], real))
